@@ -392,7 +392,17 @@ fn rvalue_json<'tcx>(tcx: TyCtxt<'tcx>, owner: DefId, body: &Body<'tcx>, rv: &Rv
             ("b", opj(&ab.1)),
         ]),
         Rvalue::UnaryOp(op, a) => J::obj(vec![("k", J::s("unop")), ("op", J::s(format!("{:?}", op))), ("a", opj(a))]),
-        Rvalue::Discriminant(p) => J::obj(vec![("k", J::s("discr")), ("place", place_json(tcx, body, p.as_ref()))]),
+        Rvalue::Discriminant(p) => {
+            let mut o: Vec<(&'static str, J)> = vec![("k", J::s("discr")), ("place", place_json(tcx, body, p.as_ref()))];
+            let pty = p.ty(&body.local_decls, tcx).ty;
+            if let TyKind::Adt(adt, _) = pty.peel_refs().kind() {
+                o.push(("adt", J::s(def_path(tcx, adt.did()))));
+                if adt.is_enum() {
+                    o.push(("variants", J::Arr(adt.variants().iter().map(|v| J::s(v.name.to_string())).collect())));
+                }
+            }
+            J::obj(o)
+        }
         Rvalue::Aggregate(kind, ops) => {
             let mut o: Vec<(&'static str, J)> = vec![("k", J::s("agg"))];
             match &**kind {
